@@ -17,3 +17,6 @@ pub use self::list::ListName;
 pub use self::map::UninhabitedMap;
 pub use self::regex::{Error as RegexError, Regex, RegexFormat};
 pub use self::wildcard::{Wildcard, WildcardError};
+
+#[cfg(kani)]
+pub(crate) mod verif_kani;
